@@ -213,6 +213,9 @@ func (fc *fnCtx) instr(in ssa.Instruction) {
 	case *ssa.Slice:
 		fc.set(x, fc.slice(x))
 	case *ssa.Store:
+		if g.lite {
+			fc.event("store "+fc.addrText(x.Addr), nil, x.Pos())
+		}
 		if a, ok := x.Addr.(*ssa.Alloc); ok && fc.promotable(a) {
 			fc.cells[a] = fc.named(fc.pfx+"cell_"+a.Comment, fc.v(x.Val))
 			return
@@ -313,6 +316,21 @@ func (fc *fnCtx) instr(in ssa.Instruction) {
 			cs[a] = v
 		}
 		fc.rets = append(fc.rets, retSite{cs, fc.g.w.srcAt(x.Pos(), "return"), fc.curR, vs, fc.curH.clone(), fc.curAC})
+		if g.lite && fc.parent == nil {
+			// typestate: `order L: A before return nil`: a return with a nil error needs a preceding successful A
+			for _, o := range fc.topOrders() {
+				if o.after != "return nil" || len(vs) == 0 {
+					continue
+				}
+				last := vs[len(vs)-1]
+				if last.k != kIface || last.ty == nil || !isErrorType(last.ty) {
+					continue
+				}
+				g.oblige(obligation{name: fmt.Sprintf("order:%s:%s", fnKeyQ(fc.fn), o.label), kind: "order",
+					guard: fmt.Sprintf("(and %s (= %s 0))", fc.curR, last.t[0]),
+					cond:  fmt.Sprintf("(= %s 1)", sel(fc.curH["GL"], evRef, evIndex(o.before))), pos: g.w.posString(x.Pos())})
+			}
+		}
 	case *ssa.Panic:
 		c := g.w.contractOf(fc.fn)
 		if c != nil && c.panicsWhen != "" && fc.parent == nil {
@@ -354,12 +372,41 @@ func (fc *fnCtx) addrText(a ssa.Value) string {
 		}
 	case *ssa.Global:
 		return x.Name()
+	case *ssa.FreeVar:
+		return x.Name()
 	case *ssa.UnOp:
 		if x.Op == token.MUL {
 			return fc.addrText(x.X)
 		}
 	}
+	if n := fc.debugName(a); n != "" {
+		return n
+	}
 	return "p"
+}
+
+// debugName: the source variable an SSA value is the (only) definition of, from the DebugRef instructions.
+func (fc *fnCtx) debugName(a ssa.Value) string {
+	if fc.dbgNames == nil {
+		fc.dbgNames = map[ssa.Value]string{}
+		for _, b := range fc.fn.Blocks {
+			for _, in := range b.Instrs {
+				if d, ok := in.(*ssa.DebugRef); ok && !d.IsAddr {
+					if id, ok := d.Expr.(*ast.Ident); ok {
+						if old, seen := fc.dbgNames[d.X]; seen && old != id.Name {
+							fc.dbgNames[d.X] = "#ambiguous"
+						} else {
+							fc.dbgNames[d.X] = id.Name
+						}
+					}
+				}
+			}
+		}
+	}
+	if n := fc.dbgNames[a]; n != "" && n != "#ambiguous" {
+		return n
+	}
+	return ""
 }
 
 func (fc *fnCtx) named(base string, v *val) *val {
@@ -1036,7 +1083,11 @@ func (fc *fnCtx) havocHeap(tag, keep string, keepGhost bool) {
 		if !isSimple(cur) {
 			cur = g.bind(hk.name+"_p", heapSort(hk.sort), cur)
 		}
-		fc.curH[hk.name] = g.bind(hk.name+"_"+tag, heapSort(hk.sort), fmt.Sprintf("(lambda ((r Int)) (ite %s (select %s r) (select %s r)))", k, cur, fresh[hk.name]))
+		kk := k
+		if hk.name == "GL" {
+			kk = fmt.Sprintf("(or %s (= r %s))", k, evRef) // event flags are ghost state of the function under check
+		}
+		fc.curH[hk.name] = g.bind(hk.name+"_"+tag, heapSort(hk.sort), fmt.Sprintf("(lambda ((r Int)) (ite %s (select %s r) (select %s r)))", kk, cur, fresh[hk.name]))
 	}
 	ac := g.declare(g.freshName("AC"), "Int")
 	g.assume(fmt.Sprintf("(>= %s %s)", ac, fc.curAC))
